@@ -189,14 +189,15 @@ def draw_op(draw, cfg, nxt, allow_blocks=True, allow_empty=False, max_files=5, m
     g, dd = [], []
     off = 0
     pos = nxt + gap
+    compact = draw(st.integers(0, 3)) == 0  # several short blocks with short gaps: they stay inside one (open) file
     for bi in range(nb):
-        ln = draw_len()
+        ln = draw(st.integers(1, 3)) if compact else draw_len()
         g.append(pos)
         dd.append(off)
         off += ln
         pos += ln
         if bi + 1 < nb:
-            gg = draw_gap(pos)
+            gg = draw(st.integers(1, 3)) if compact else draw_gap(pos)
             pos += max(1, gg)  # consecutive blocks must be separated by >= 1 (else same block)
     return {"op": "b", "len": off, "g": g, "d": dd}, pos
 
